@@ -272,15 +272,20 @@ fn sem_iff<N: ArrayLength>() -> Option<String> {
 fn sem_view<N: ArrayLength>() -> Option<String> {
     use std::borrow::{Borrow, BorrowMut};
     let n = N::USIZE;
-    let mut a: GenericArray<u32, N> = GenericArray::generate(|i| i as u32);
-    let base = &a as *const _ as usize;
-    let views: [&[u32]; 4] = [a.as_slice(), &*a, a.as_ref(), a.borrow()];
+    // the array sits behind a header inside a larger object: for N = 0 its address is still a definite place (not `align_of::<T>()`)
+    let mut holder: (u64, GenericArray<u32, N>) = (7, GenericArray::generate(|i| i as u32));
+    let a = &mut holder.1;
+    let base = a as *const _ as usize;
+    let views: [&[u32]; 4] = [a.as_slice(), &**a, (*a).as_ref(), (*a).borrow()];
     for (k, v) in views.iter().enumerate() {
-        if v.len() != n || (n > 0 && v.as_ptr() as usize != base) { return Some(format!("shared view #{k} of GenericArray<u32, U{n}> is not (address of the array, {n} elements): len {}", v.len())); }
+        if v.len() != n || v.as_ptr() as usize != base { return Some(format!("shared view #{k} of GenericArray<u32, U{n}> is not (address of the array, {n} elements): len {}", v.len())); }
     }
-    if (&a).into_iter().count() != n { return Some("by-reference iteration has the wrong length".into()); }
-    if a.as_mut_slice().len() != n || (&mut *a).len() != n || AsMut::<[u32]>::as_mut(&mut a).len() != n || BorrowMut::<[u32]>::borrow_mut(&mut a).len() != n || (&mut a).into_iter().count() != n {
+    if (&*a).into_iter().count() != n { return Some("by-reference iteration has the wrong length".into()); }
+    if a.as_mut_slice().len() != n || (&mut **a).len() != n || AsMut::<[u32]>::as_mut(a).len() != n || BorrowMut::<[u32]>::borrow_mut(a).len() != n || (&mut *a).into_iter().count() != n {
         return Some(format!("a mutable view of GenericArray<u32, U{n}> does not have {n} elements"));
+    }
+    if a.as_mut_slice().as_mut_ptr() as usize != base || (&mut **a).as_mut_ptr() as usize != base || AsMut::<[u32]>::as_mut(a).as_mut_ptr() as usize != base {
+        return Some(format!("a mutable view of GenericArray<u32, U{n}> does not start at the array's address"));
     }
     None
 }
